@@ -80,8 +80,11 @@ func newGameReadyGroup() *syncsaga.ReadyGroup {
 // still queued in the previous group (e.g. duplicated ones) must neither be applied to nor
 // complete the new phase.
 func (g *game) resetReadyGroup() *syncsaga.ReadyGroup {
-	g.rg.Stop()
+	// replace first, stop afterwards: stopping re-arms the old group's completion flag, and a
+	// completion of the old group must already find that it has been superseded
+	old := g.rg
 	g.rg = newGameReadyGroup()
+	old.Stop()
 	return g.rg
 }
 
